@@ -9,6 +9,7 @@ import (
 	"os"
 	"path"
 	"path/filepath"
+	"sort"
 	"strings"
 	"sync"
 	"time"
@@ -193,6 +194,11 @@ func (db *SingleBucketBackend) getBucketWithArbitraryPrefixLocked(bucket string,
 	}); err != nil {
 		return nil, err
 	}
+
+	// Walk visits 'd/x' before 'd-x'; S3 lists keys in byte order:
+	sort.Slice(response.Contents, func(i, j int) bool {
+		return response.Contents[i].Key < response.Contents[j].Key
+	})
 
 	return response, nil
 }
